@@ -50,6 +50,8 @@ var hPatterns = []hPattern{
 	14: {src: `[a-c]\d{2}$`},                                                                   // trailing anchor, fixed length
 	15: {src: `(x+x+)+y`, timeout: 70 * time.Millisecond},                                      // a second timeout value: concurrent deadlines differ
 	16: {src: `héllo\s\w+`, opts: regexp2.IgnoreCase},                                          // ordinal-ignore-case prefix / Boyer-Moore with a non-ASCII rune
+	17: {src: `(?<5>a)(b)(?<n>c)(?<10>d)`},                                                     // sparse group numbers: the lookup tables
+	18: {src: `(x+x+)+y`},                                                                      // compiled with the default timeout; one operation sets MatchTimeout later
 }
 
 func compileH(i int) *regexp2.Regexp {
@@ -76,6 +78,9 @@ type hOp struct {
 	name string
 	pat  int
 	run  func(re *regexp2.Regexp) string
+	// seqOnly: not for concurrent use on a shared Regexp (the operation writes Regexp.MatchTimeout,
+	// which the documentation does not allow while matches run)
+	seqOnly bool
 }
 
 func sum(s string) string {
@@ -184,7 +189,56 @@ func opSplit(in string) func(*regexp2.Regexp) string {
 var hOps []hOp
 
 func init() {
-	add := func(name string, pat int, f func(*regexp2.Regexp) string) { hOps = append(hOps, hOp{name, pat, f}) }
+	add := func(name string, pat int, f func(*regexp2.Regexp) string) {
+		hOps = append(hOps, hOp{name: name, pat: pat, run: f})
+	}
+	defer func() {
+		// inputs in the larger buffer size classes (the pools are size-classed up to 64 Ki elements and beyond)
+		big20, big70 := sizedInput(20000, " aabc"), sizedInput(70000, " abbc aac")
+		add("bool 20000", 0, opMatchString(big20))
+		add("findall 20000", 0, opFindAll(big20, -1))
+		add("replace 70000", 0, opReplace(big70, "<$1>"))
+		add("bool 70000", 0, opMatchString(big70))
+		// two different inputs of the same size class (above 32 KiB) with different match counts
+		s33 := strings.Repeat("needleA needleBB xx ", 1700)[:33000]
+		t33 := strings.Repeat("xx needleC yy zzzz ", 1800)[:33000]
+		add("findall S33000", 7, opFindAll(s33, -1))
+		add("replace T33000", 7, opReplace(t33, "[$&]"))
+		add("bool S33000", 7, opMatchString(s33))
+		add("findall T33000", 7, opFindAll(t33, -1))
+		// the lookup tables of a Regexp with sparse group numbers
+		add("group tables", 17, func(re *regexp2.Regexp) string {
+			return fmt.Sprint(re.GetGroupNumbers(), re.GetGroupNames(), re.GroupNameFromNumber(5), re.GroupNameFromNumber(10), re.GroupNameFromNumber(1), re.GroupNameFromNumber(7),
+				re.GroupNumberFromName("n"), re.GroupNumberFromName("5"), re.GroupNumberFromName("x"))
+		})
+		add("sparse find+groups", 17, func(re *regexp2.Regexp) string {
+			m, err := re.FindStringMatch("xabcdx")
+			if err != nil || m == nil {
+				return fmt.Sprint("nil ", err)
+			}
+			out := mon.ObsAll(m)
+			for _, n := range []int{10, 5, 1, 2, 3, 7} {
+				if g := m.GroupByNumber(n); g != nil {
+					out += fmt.Sprintf(" %d=%s", n, g.String())
+				} else {
+					out += fmt.Sprintf(" %d=nil", n)
+				}
+			}
+			return out
+		})
+		add("sparse replace", 17, opReplace("abcd abcd", "${10}${n}$5$1"))
+		// MatchTimeout set after the Regexp has been used under the default timeout
+		add("default-timeout quick", 18, opMatchString("xxy xxxy"))
+		hOps = append(hOps, hOp{name: "timeout set later", pat: 18, seqOnly: true, run: func(re *regexp2.Regexp) string {
+			re.MatchTimeout = 40 * time.Millisecond
+			defer func() { re.MatchTimeout = regexp2.DefaultMatchTimeout }()
+			_, err := re.MatchString(strings.Repeat("x", 36) + "!")
+			if err != nil {
+				return resErr(err)
+			}
+			return "no error"
+		}})
+	}()
 	small := "xx aab c aaabbc aac"
 	add("bool aabc", 0, opMatchString(small))
 	add("bool-runes aabc", 0, opMatchRunes(small))
